@@ -78,6 +78,23 @@ def run(ctx):
         if ctx.model_ok and "x" not in kv["sizes"]:
             mlines.append("auto %s" % kv["sizes"].replace(",", " "))
             midx.append((i, kv["order"]))
+    # inputs longer than one default chunk (DEFAULT_CHUNK_SIZE = 1 000 000): auto_compress writes several chunks; lengths
+    # around the multiples of the chunk size, implementation only (generated inside the harness)
+    big = []
+    for n in ([1000001, 2000002] if ctx.quick else [999999, 1000000, 1000001, 1500001, 2000000, 2000002, 3000001, 4000003]):
+        dt = rng.choice(["i32", "u32", "i64", "f64", "i16", "micros", "bool"])
+        big.append("bigauto %s %d %s %d %d" % (dt, rng.choice([0, 4, 6, 8]), rng.choice(["uniform", "smooth", "sparse"]), n, ctx.seed + n))
+    for line, a in zip(big, C.harness(big, timeout=1800, mem_kb=8 * 1024 * 1024)):
+        kv = S.parse_kv(a)
+        ctx.case(line, ["multi-chunk"])
+        ctx.count("n:>1e6")
+        lv = int(line.split(" ")[2])
+        if not a.startswith("ok "):
+            ctx.violation("automatic configuration / compression is not total (long input)", line, "ok …", a[:300])
+        elif kv.get("rt") != "1" or kv.get("len") != kv.get("n") or int(kv["level"]) != lv or not (0 <= int(kv["order"]) <= 7):
+            ctx.violation("automatic configuration contract broken on an input longer than one chunk: round trip %s, decoded %s of %s numbers, "
+                          "level %s (requested %d), order %s" % (kv.get("rt"), kv.get("len"), kv.get("n"), kv.get("level"), lv, kv.get("order")),
+                          line, "level kept, order in 0..=7, round trip", a[:300])
     if mlines:
         for (i, order), m in zip(midx, C.driver(mlines)):
             if m != order:
